@@ -104,6 +104,8 @@ func (c *Client) do(req *http.Request, negotiated bool) (resp *http.Response, er
 					return resp, errors.New("stopped after 10 redirects")
 				}
 				if req.Body != nil {
+					// The server may have answered before reading all of the body: capture the rest of it
+					io.Copy(io.Discard, req.Body)
 					// Refresh the body reader so the body can be sent again
 					e.reqTarget.Body = io.NopCloser(&body)
 				}
@@ -118,6 +120,8 @@ func (c *Client) do(req *http.Request, negotiated bool) (resp *http.Response, er
 			return resp, err
 		}
 		if req.Body != nil {
+			// The server may have answered before reading all of the body: capture the rest of it
+			io.Copy(io.Discard, req.Body)
 			// Refresh the body reader so the body can be sent again
 			req.Body = io.NopCloser(&body)
 		}
